@@ -2196,19 +2196,12 @@ impl BytecodeVM {
         // Create guarded exception value
         let guarded = Guarded::from_value(exception, &interp.heap);
 
-        // Try to find an exception handler
-        if let Some((handler_ip, is_catch)) = self.find_exception_handler(interp) {
-            self.ip = handler_ip;
-            if is_catch {
-                self.exception_value = Some(guarded);
-            } else {
-                self.pending_completion = Some(PendingCompletion::Throw(guarded));
-            }
-            true
-        } else {
-            // No handler found - store exception for propagation
-            self.exception_value = Some(guarded);
-            false
+        // Throw it where the frame was suspended: a handler of this frame, otherwise the
+        // frames that were waiting for it are unwound exactly as for an error raised by an
+        // instruction (an async function frame turns it into the rejection of its promise).
+        match self.handle_error_with_trampoline_unwind(interp, JsError::thrown(guarded)) {
+            Ok(()) => true,
+            Err(_) => false,
         }
     }
 
